@@ -507,5 +507,15 @@ func init() {
 		"interleavings are explored up to the reported deviation bound from the non-preemptive round-robin schedule; free choices (arrival order, select ties) are exhaustive",
 	}
 	register(&Check{ID: "C01", Rule: rule, Gen: qcInstances, Assumptions: assume})
-	register(&Check{ID: "C02", Rule: rule, Gen: qcInstances, Assumptions: assume})
+	register(&Check{ID: "C02", Rule: rule + "; plus the connection-fault instances of C07 for one failing node of two (crash, reset, crash+restart struck by an adversary thread, also while the request is still queued), where an Incomplete result must account for exactly the nodes that failed - never while a targeted node is still silent and the context alive",
+		Gen: func(tier string) []Instance {
+			out := qcInstances(tier)
+			for _, in := range faultInstances(tier) {
+				if strings.Contains(in.Name, "/n=2/failing=[2]/") && !strings.Contains(in.Name, "/err-") && !strings.Contains(in.Name, "/down/") && strings.Contains(in.Name, "thr=healthy+1") {
+					in.Name = "with-faults/" + in.Name
+					out = append(out, in)
+				}
+			}
+			return out
+		}, Assumptions: assume})
 }
